@@ -10,7 +10,8 @@ clone): every non-empty password becomes the placeholder.  What the handlers the
 global/get → users; pathdefaults/get → defaults; paths/list and paths/get → paths.
 
 Part B.  `dumpHeaders` mirrors the header loop of `dumpRequest`: keys in sorted order, one line per
-value, the value replaced by the placeholder iff the key is in `requestHeadersToRedact`.
+value, the value replaced by the placeholder iff the lookup of the key in `requestHeadersToRedact` hits
+(exact map lookup, or through `http.CanonicalHeaderKey` — parameter `canon`, regenerated from the source).
 -/
 import MtxVerif.Base.DriverLib
 import MtxVerif.Model.C11
@@ -106,51 +107,57 @@ where
 
 /-! ### Part B -/
 
-abbrev Header := Bytes × List Bytes      -- canonical key, values in order
+abbrev Header := Bytes × List Bytes      -- map key, values in order
 
 def crlf : Bytes := [13, 10]
 def colonSp : Bytes := [58, 32]
-
-def headerLine (redactSet : List Bytes) (k v : Bytes) : Bytes :=
-  k ++ colonSp ++ (if redactSet.contains k then placeholder else v) ++ crlf
-
-/-- header section of the dump; `hs` sorted by key as `slices.Sort(keys)` leaves them -/
-def dumpHeaders (redactSet : List Bytes) (hs : List Header) : Bytes :=
-  hs.flatMap fun h => h.2.flatMap fun v => headerLine redactSet h.1 v
-
-/-- the request with the secret header values erased (only how many values there were remains) -/
-def eraseSecrets (redactSet : List Bytes) (hs : List Header) : List Header :=
-  hs.map fun h => if redactSet.contains h.1 then (h.1, h.2.map fun _ => []) else h
-
-/-- whole dump: request line and Host line are passed in as produced by fmt (oracle), then headers,
-blank line, capped body -/
-def dump (redactSet : List Bytes) (reqLine hostLine : Bytes) (hs : List Header) (body : Bytes) : Bytes :=
-  reqLine ++ hostLine ++ dumpHeaders redactSet hs ++ crlf ++ body
 
 def isInfixB (a b : Bytes) : Bool :=
   (List.range (b.length + 1)).any fun i => (b.drop i).take a.length == a
 
 /-! HTTP header names are case-insensitive: a header is a credential header if its name equals a listed
-name up to ASCII case.  `dumpRequest` looks the map key up exactly; keys produced by net/http are in
-canonical spelling, which is the spelling of the list. -/
+name up to ASCII case.  Keys produced by net/http are in canonical spelling, the spelling of the list. -/
 
 def lowerB (b : Bytes) : Bytes := b.map fun c => if 65 ≤ c.toNat ∧ c.toNat ≤ 90 then c + 32 else c
 
 /-- `k` names a listed credential header (case-insensitively) -/
 def listedCI (rs : List Bytes) (k : Bytes) : Bool := rs.any fun r => lowerB r == lowerB k
 
-/-- the request with the values of ALL credential headers (whatever the spelling of the key) erased -/
-def eraseSecretsCI (rs : List Bytes) (hs : List Header) : List Header :=
-  hs.map fun h => if listedCI rs h.1 then (h.1, h.2.map fun _ => []) else h
+/-- The lookup `dumpRequest` does for a map key.  `canon = false`: `requestHeadersToRedact[k]` (exact);
+`canon = true`: `requestHeadersToRedact[http.CanonicalHeaderKey(k)]`, which for keys that are case
+variants of listed names is the case-insensitive match.  Which one the code has is regenerated from the
+source into `Gen/C07.lean`. -/
+def hit (canon : Bool) (rs : List Bytes) (k : Bytes) : Bool :=
+  if canon then listedCI rs k else rs.contains k
+
+/-- one `fmt.Fprintf(&b, "%s: %s\r\n", k, v)` with `v` replaced iff `p k` -/
+def headerLineBy (p : Bytes → Bool) (k v : Bytes) : Bytes :=
+  k ++ colonSp ++ (if p k then placeholder else v) ++ crlf
+
+/-- header section of the dump; `hs` in the order `slices.Sort(keys)` leaves the keys -/
+def dumpHeadersBy (p : Bytes → Bool) (hs : List Header) : Bytes :=
+  hs.flatMap fun h => h.2.flatMap fun v => headerLineBy p h.1 v
+
+/-- the request with the values of the headers selected by `p` erased (only their number remains) -/
+def eraseBy (p : Bytes → Bool) (hs : List Header) : List Header :=
+  hs.map fun h => if p h.1 then (h.1, h.2.map fun _ => []) else h
+
+def dumpHeaders (canon : Bool) (rs : List Bytes) (hs : List Header) : Bytes := dumpHeadersBy (hit canon rs) hs
+
+/-- whole dump: request line and Host line are passed in as produced by fmt (oracle), then headers,
+blank line, capped body -/
+def dump (canon : Bool) (rs : List Bytes) (reqLine hostLine : Bytes) (hs : List Header) (body : Bytes) : Bytes :=
+  reqLine ++ hostLine ++ dumpHeaders canon rs hs ++ crlf ++ body
+
+/-- values of ALL credential headers erased, whatever the spelling of the key -/
+def eraseSecretsCI (rs : List Bytes) (hs : List Header) : List Header := eraseBy (listedCI rs) hs
 
 /-- decidable side condition: every credential header of the request is spelled as in the list -/
 def keysCanonical (rs : List Bytes) (hs : List Header) : Bool :=
   hs.all fun h => !listedCI rs h.1 || rs.contains h.1
 
 /-- what the dump must look like: every value of every credential header replaced by the placeholder -/
-def idealHeaders (rs : List Bytes) (hs : List Header) : Bytes :=
-  hs.flatMap fun h => h.2.flatMap fun v =>
-    h.1 ++ colonSp ++ (if listedCI rs h.1 then placeholder else v) ++ crlf
+def idealHeaders (rs : List Bytes) (hs : List Header) : Bytes := dumpHeadersBy (listedCI rs) hs
 
 /-- **Executable spec on the implementation's dump** `out`: the planted secrets are all non-empty values
 of credential headers; one leaks if it occurs in `out` although it occurs nowhere in the request outside
